@@ -353,7 +353,7 @@ export_node (struct yaep_tree_node *n)
 
 /* ---------------------------------------------------------------- parse bookkeeping */
 #define MAXPARSE 64
-struct pres { struct yaep_tree_node *root; int freekind; int parse_id; int freed; };
+struct pres { struct yaep_tree_node *root; int freekind; int parse_id; int freed; int *attrs; int nattrs; };
 static struct pres results[MAXH][MAXPARSE]; static int nres[MAXH];
 static int n_termcb;
 static void
@@ -407,10 +407,10 @@ do_parse (int h, const char *alloc_kind, const char *free_kind, int hookflags, i
   if (nres[h] < MAXPARSE)
     {
       struct pres *r = &results[h][nres[h]++];
-      r->root = rc == 0 ? root : NULL; r->parse_id = cur_parse; r->freed = 0;
-      r->freekind = af == cb_parse_alloc ? 1 : (af == NULL && ff == NULL ? 2 : 0);
+      r->root = rc == 0 ? root : NULL; r->parse_id = cur_parse; r->freed = 0; r->attrs = pattrs; r->nattrs = ntoks;
+      /* (user alloc, NULL free): the tree must not be freed with yaep_free_tree (yaep.h) */
+      r->freekind = (af == cb_parse_alloc && ff != NULL) ? 1 : (af == NULL && ff == NULL ? 2 : 0);
     }
-  printf ("%slib allocs=%ld live=%ld\n", prefix, lib_allocs, lib_live_blocks);
   /* attrs stay allocated: TERM nodes point into them until the case ends */
 }
 
@@ -421,6 +421,7 @@ do_freetree (int h, int slot, int walk_first)
   if (slot < 0 || slot >= nres[h]) { printf ("%sfreetree noslot\n", prefix); return; }
   r = &results[h][slot];
   if (r->freed) { printf ("%sfreetree already\n", prefix); return; }
+  pattrs = r->attrs; nptoks = r->nattrs;
   if (walk_first && r->root != NULL)
     {
       /* re-walk the tree (after the grammar may have been freed): touches every node */
